@@ -35,6 +35,8 @@ def run_harness(backend, cases, no_in=False, repeat=1, extra=()):
     if r.returncode != 0:
         raise RuntimeError(f"harness run failed rc={r.returncode}: {r.stderr[-2000:]}")
     ins, outs, nondet = {}, {}, []
+    global last_analysis
+    last_analysis = {}
     for line in r.stdout.split("\n"):
         if line.startswith("IN "):
             _, i, rest = (line.split(" ", 2) + [""])[:3]
@@ -44,7 +46,22 @@ def run_harness(backend, cases, no_in=False, repeat=1, extra=()):
             outs[i] = rest
         elif line.startswith("NONDET "):
             nondet.append(line.split(" ")[1])
+        elif line.startswith("AN "):
+            _, i, rest = (line.split(" ", 2) + [""])[:3]
+            try:
+                last_analysis[i] = json.loads(rest)
+            except Exception:
+                last_analysis[i] = {"parse_ok": False, "parse_error": "analysis not decodable"}
     return ins, outs, nondet
+
+
+last_analysis = {}
+
+
+def analyze(backend, cases):
+    """real expansion + syn-2 inspection of the output. returns ({id: canon outcome}, {id: analysis})"""
+    _, outs, _ = run_harness(backend, cases, no_in=True, extra=("--analyze",))
+    return {i: canon_impl(outs.get(i, "?")) for i, _ in cases}, dict(last_analysis)
 
 
 def run_model(backend, ins):
